@@ -16,6 +16,7 @@ var c02ReqDirs = []string{"", "no-cache", "max-age=0", "max-age=5", "max-stale",
 
 const (
 	c02ETag = `"etag-v1"`
+	c02ClientCurrent = `"client-current"`
 )
 
 func runC02(x *mc.X) {
@@ -29,6 +30,9 @@ func runC02(x *mc.X) {
 	elapsed := mc.Pick(x, "elapsed", []int64{2, 10, 20})
 	reqDir := mc.Pick(x, "req.directive", c02ReqDirs)
 	answerKind := mc.Pick(x, "origin.answer", []string{"304", "304+fields", "200", "500", "503", "error", "304+no-cache"})
+	// the client's own preconditions: an entity-tag the origin does not have, one that the origin considers current
+	// (a copy the client holds, which says nothing about the copy this cache holds), an old date
+	clientCond := mc.Pick(x, "client.preconditions", []string{"", "if-none-match other", "if-none-match current", "if-modified-since old"})
 
 	w := world.New(world.Opt{})
 	defer w.Close()
@@ -54,7 +58,19 @@ func runC02(x *mc.X) {
 
 	// origin behaviour for the second exchange: 304 only to a conditional request
 	answerFn(w, func(o *world.Origin, c *world.Call) (*http.Response, error) {
-		cond := c.Header.Get("If-None-Match") != "" || c.Header.Get("If-Modified-Since") != ""
+		// a 304 is an answer to the preconditions actually sent: If-None-Match takes precedence over If-Modified-Since (RFC 9110 §13.2.2)
+		cond := false
+		if inm := c.Header.Values("If-None-Match"); len(inm) > 0 {
+			for _, line := range inm {
+				for _, m := range strings.Split(line, ",") {
+					if m = strings.TrimSpace(m); (hasETag && m == c02ETag) || m == c02ClientCurrent {
+						cond = true
+					}
+				}
+			}
+		} else if ims := c.Header.Get("If-Modified-Since"); ims != "" {
+			cond = hasLM && ims == lm
+		}
 		switch answerKind {
 		case "304", "304+fields", "304+no-cache":
 			if !cond {
@@ -81,6 +97,21 @@ func runC02(x *mc.X) {
 	if reqDir != "" {
 		req.Header.Set("Cache-Control", reqDir)
 	}
+	clientINM, clientIMS := "", ""
+	switch clientCond {
+	case "if-none-match other":
+		clientINM = `"client-other"`
+	case "if-none-match current":
+		clientINM = c02ClientCurrent
+	case "if-modified-since old":
+		clientIMS = httpDate(w.Epoch.Add(-secs(200000)))
+	}
+	if clientINM != "" {
+		req.Header.Set("If-None-Match", clientINM)
+	}
+	if clientIMS != "" {
+		req.Header.Set("If-Modified-Since", clientIMS)
+	}
 	o2 := w.Do(req)
 	logObs(x, fmt.Sprintf("GET after %ds Cache-Control=%q (origin would answer %s)", elapsed, reqDir, answerKind), o2)
 	for _, c := range o2.BgCalls {
@@ -98,7 +129,7 @@ func runC02(x *mc.X) {
 	reqMaxAgeExceeded := (strings.Contains(reqDir, "max-age=0") && age > 0) || (strings.Contains(reqDir, "max-age=5") && age > 5)
 	blocker := noCache == "no-cache" || (stale && mustReval) || reqNoCache
 	needs := blocker || reqMaxAgeExceeded
-	x.State(ccv, validators, fmt.Sprint(stale), reqDir, answerKind, obsClass(o2), fmt.Sprint(o2.Tok == o1.Tok))
+	x.State(ccv, validators, fmt.Sprint(stale), reqDir, answerKind, clientCond, obsClass(o2), fmt.Sprint(o2.Tok == o1.Tok))
 	x.Note(fmt.Sprintf("needs=%v/%s", needs, obsClass(o2)))
 	if o2.Panic != nil {
 		return // C10
@@ -113,7 +144,8 @@ func runC02(x *mc.X) {
 			x.Failf("upstream request lost client fields", "upstream request differs from the client's: %s %s %v", c.Method, c.URL, c.Header)
 		}
 		inm, ims := c.Header.Get("If-None-Match"), c.Header.Get("If-Modified-Since")
-		wantINM, wantIMS := "", ""
+		// a stored validator replaces the client's precondition of the same kind; where nothing is stored for a kind the client's own stays
+		wantINM, wantIMS := clientINM, clientIMS
 		if hasETag {
 			wantINM = c02ETag
 		}
@@ -121,12 +153,18 @@ func runC02(x *mc.X) {
 			wantIMS = lm
 		}
 		if inm != wantINM || ims != wantIMS {
-			x.Failf(fmt.Sprintf("validation request validators wrong (stored %s)", validators), "If-None-Match=%q (want %q) If-Modified-Since=%q (want %q)", inm, wantINM, ims, wantIMS)
+			x.Failf(fmt.Sprintf("validation request validators wrong (stored %s, client %q)", validators, clientCond), "If-None-Match=%q (want %q) If-Modified-Since=%q (want %q)", inm, wantINM, ims, wantIMS)
 		}
 	}
 
 	servedStored := o2.Err == nil && o2.Tok != "" && o2.Tok == o1.Tok
 	validated304 := len(o2.Calls) == 1 && o2.Calls[0].RespCode == 304 && o2.Calls[0].Err == nil
+	if validated304 && !hasETag && !hasLM {
+		validated304 = false // nothing stored to validate with: that 304 answers the client's own precondition, not the stored response
+	}
+	if clientCond != "" && o2.Err == nil && o2.Status == 304 && len(o2.Calls) == 1 && o2.Calls[0].RespCode == 304 && !hasETag && !hasLM {
+		return // the origin's 304 to the client's own precondition, passed on
+	}
 	if answerKind == "304+no-cache" && validated304 && o2.Err == nil && o2.Tok == o1.Tok {
 		// the 304 made the stored response "no-cache": a further plain request must be validated again
 		world.Advance(secs(1))
